@@ -713,3 +713,114 @@ def body_inl(F, fn, keep=(), max_size=400, depth=3):
     keep = set(keep)
     # trait-impl methods (derived Clone / From / Display ..) are not "helpers": they stay calls
     return inline_helpers(F, b, depth=depth, max_size=max_size, skip=lambda c: c in keep or last(c) in keep or c.startswith("<") or "::<impl " in c and " for " in c)
+
+
+# ---- small boolean functions as truth tables ---------------------------------------------------------------------------
+def bool_expr(n):
+    """("lit", b) | ("atom", text) | ("not", e) | ("and", a, b) | ("or", a, b) of a condition; emptiness tests are normalised to
+    one atom (`x.len() == 0`, `x.len() > 0`, `x.len() != 0`, `x.len() >= 1` are `x.is_empty()` / its negation)"""
+    n = strip(n) if isinstance(n, dict) else n
+    k = n.get("k")
+    if k == "lit" and n.get("lk") == "bool":
+        return ("lit", bool(n["v"]))
+    if k == "un" and n.get("op") == "!":
+        return ("not", bool_expr(n["e"]))
+    if k == "bin" and n["op"] in ("&&", "||"):
+        return ("and" if n["op"] == "&&" else "or", bool_expr(n["l"]), bool_expr(n["r"]))
+    if k == "bin" and n["op"] in ("==", "!=", ">", ">=", "<", "<="):
+        l, r = strip(n["l"]), strip(n["r"])
+        op = n["op"]
+        if l.get("k") == "lit" and r.get("k") != "lit":
+            l, r = r, l
+            op = {"<": ">", ">": "<", "<=": ">=", ">=": "<="}.get(op, op)
+        if l.get("k") == "mcall" and l["m"] in ("len", "count") and not l.get("args") and r.get("k") == "lit" and r.get("lk") == "int":
+            em = ("atom", render(strip(l["recv"])) + ".is_empty()")
+            v = r["v"]
+            if (op, v) in (("==", 0), ("<", 1), ("<=", 0)):
+                return em
+            if (op, v) in (("!=", 0), (">", 0), (">=", 1)):
+                return ("not", em)
+        if l.get("k") == "lit" and l.get("lk") == "bool" or r.get("k") == "lit" and r.get("lk") == "bool":
+            b, x = (l, r) if l.get("k") == "lit" else (r, l)
+            e = bool_expr(x)
+            return e if (bool(b["v"]) == (op == "==")) else ("not", e)
+    if k == "mcall" and n["m"] == "is_empty" and not n.get("args"):
+        return ("atom", render(strip(n["recv"])) + ".is_empty()")
+    if k in ("call", "mcall") and n.get("args") is not None:
+        # calls are atoms up to borrows of their arguments
+        c = last(n.get("callee") or n.get("m") or "")
+        a = ([n["recv"]] if k == "mcall" else []) + list(n.get("args", []))
+        return ("atom", "%s(%s)" % (c, ", ".join(render(strip(x)) for x in a)))
+    return ("atom", render(n))
+
+
+def bool_atoms(e, out=None):
+    out = set() if out is None else out
+    if e[0] == "atom":
+        out.add(e[1])
+    for x in e[1:]:
+        if isinstance(x, tuple):
+            bool_atoms(x, out)
+    return out
+
+
+def bool_eval(e, env):
+    t = e[0]
+    if t == "lit":
+        return e[1]
+    if t == "atom":
+        return env[e[1]]
+    if t == "not":
+        return not bool_eval(e[1], env)
+    if t == "and":
+        return bool_eval(e[1], env) and bool_eval(e[2], env)
+    return bool_eval(e[1], env) or bool_eval(e[2], env)
+
+
+def bool_table(F, fn, classify=None):
+    """truth table of a small function (helpers inlined) whose result depends on boolean conditions only:
+    (atoms, {frozenset(true atoms): leaf}) with leaf = classify(expr) (default: the boolean value of the leaf under the
+    assignment); None when a guard is a pattern test or more than 6 atoms are involved"""
+    body = body_of(fn)
+    leaves = return_leaves(body)
+    rows = []
+    atoms = set()
+    for e, gs in leaves:
+        conds = []
+        for g, pol in gs:
+            if isinstance(g, tuple):
+                return None
+            be = bool_expr(g)
+            conds.append(be if pol else ("not", be))
+            bool_atoms(be, atoms)
+        val = classify(e) if classify else bool_expr(e)
+        if not classify:
+            bool_atoms(val, atoms)
+        rows.append((conds, val))
+    atoms = sorted(atoms)
+    if len(atoms) > 6:
+        return None
+    table = {}
+    for m in range(1 << len(atoms)):
+        env = {a: bool(m >> i & 1) for i, a in enumerate(atoms)}
+        res = None
+        for conds, val in rows:
+            if all(bool_eval(c, env) for c in conds):
+                res = val if classify else bool_eval(val, env)
+                break
+        table[frozenset(a for a in atoms if env[a])] = res
+    return atoms, table
+
+
+def bool_fn_is(F, fn, atom_rx, negated=False):
+    """the function's result is exactly the truth (or the negation) of its single atom, whose text matches atom_rx"""
+    import re as _re
+    t = bool_table(F, fn)
+    if t is None:
+        return False, "not a function of boolean conditions"
+    atoms, table = t
+    if len(atoms) != 1 or not _re.search(atom_rx, atoms[0]):
+        return False, "depends on %s" % atoms
+    a = atoms[0]
+    ok = table[frozenset([a])] == (not negated) and table[frozenset()] == negated
+    return ok, "result is %s%s" % ("" if table[frozenset([a])] else "!", a)
